@@ -96,6 +96,36 @@ void scen_reduce(hx::Desc& d) {
     g_bodies = nullptr;
 }
 
+// Deep ranges (auto / affinity partitioner): the operand is kept as a list of coalesced intervals, so that ranges of 2^12..2^17
+// elements cost only as much as the number of chunks.  A range that deep lets one task's range pool (8 entries, circular)
+// grow past its initial depth, hand out front entries to thieves and wrap around.  Concatenation of intervals is
+// associative and not commutative: the result equals the sequential fold iff it is exactly {[0,n)}.
+typedef std::vector<std::pair<int, int>> Ivals;
+void iv_append(Ivals& a, int b, int e) { if (b == e) return; if (!a.empty() && a.back().second == b) a.back().second = e; else a.push_back({b, e}); }
+void scen_reduce_deep(hx::Desc& d) {
+    static const int nv[] = {1 << 12, 1 << 14, 1 << 17};
+    int n = sim::draw_of(nv, "deep_n"), g = (int)sim::draw_range(1, 3, "grain"), part = sim::draw_bool("deep_affinity") ? 3 : 1;
+    static const int ptsv[] = {0, 1, 4};
+    int pts = sim::draw_of(ptsv, "points"), hold = (int)sim::draw(4, "hold_leftmost");
+    d.add(hx::fmt("parallel_reduce functional form, deep range n=%d grain=%d %s points=%d hold-leftmost=%d", n, g, kPart[part], pts, hold)); d.publish();
+    tbb::blocked_range<int> range(0, n, (size_t)g);
+    int live = 0;
+    with_part(part, [&](auto& p) {
+        Ivals r = tbb::parallel_reduce(range, Ivals(),
+            [&](const tbb::blocked_range<int>& rr, Ivals acc) {
+                if (++live >= 2) sim::mark_window();
+                SIM_CHECK(rr.begin() >= 0 && rr.end() <= n && rr.begin() < rr.end(), "oracle:reduce-result", "body called with sub-range [%d,%d) outside [0,%d)", rr.begin(), rr.end(), n);
+                iv_append(acc, rr.begin(), rr.end());
+                // the left-most chunks take longer: the task that owns them keeps offering work that gets stolen
+                int k = pts + (hold && rr.begin() < n / 64 ? 6 * hold : 0);
+                for (int i = 0; i < k; ++i) sim::upoint();
+                --live; return acc; },
+            [](Ivals a, const Ivals& b) { for (auto& x : b) iv_append(a, x.first, x.second); return a; }, p);
+        SIM_CHECK(r.size() == 1 && r[0].first == 0 && r[0].second == n, "oracle:reduce-result",
+                  "parallel_reduce over [0,%d): result is %zu interval(s), first [%d,%d) - not the sequential left-to-right fold", n, r.size(), r.empty() ? -1 : r[0].first, r.empty() ? -1 : r[0].second);
+    });
+}
+
 // deterministic reduce with a non-associative floating point operation: bit-identical across schedules.
 // The reference is computed by an explicit recursive halving that depends only on (range, grain).
 double det_ref(int b, int e, int g) {
@@ -226,9 +256,10 @@ SIM_SCENARIO(scen_c06, "c06", "C06", 8000000, 40000) {
     hx::Desc d;
     hx::draw_runtime_config(d);
     int conc = (int)sim::draw(5, "arena_conc");
-    int kind = (int)sim::draw(6, "kind");
+    int kind = (int)sim::draw(7, "kind");
     auto work = [&] {
         switch (kind) {
+        case 6: scen_reduce_deep(d); break;
         case 0: case 1: scen_reduce(d); break;
         case 2: scen_det(d); break;
         case 3: scen_scan(d); break;
